@@ -285,8 +285,50 @@ class LazyObj(dict):
     def __init__(self, d, env):
         super().__init__()
         self._d, self._env, self._cache = d, env, {}
+        self._deleted, self._set = set(), {}
+
+    # a handler that modifies the caller's object (pop / del / item assignment) really modifies it: the change is
+    # visible to everything that reads the object afterwards, as with a dict (concrete keys only)
+    def pop(self, k, *default):
+        if self._has(k):
+            v = self[k]
+            self._deleted.add(k)
+            self._set.pop(k, None)
+            return v
+        if default:
+            return default[0]
+        raise KeyError(k)
+
+    def __delitem__(self, k):
+        if not self._has(k):
+            raise KeyError(k)
+        self._deleted.add(k)
+        self._set.pop(k, None)
+
+    def __setitem__(self, k, v):
+        self._deleted.discard(k)
+        self._set[k] = v
+
+    def setdefault(self, k, default=None):
+        if self._has(k):
+            return self[k]
+        self[k] = default
+        return default
+
+    def update(self, *a, **kw):
+        for k, v in dict(*a, **kw).items():
+            self[k] = v
+
+    def mutated(self):
+        return bool(self._deleted) or bool(self._set)
 
     def _has(self, k):
+        if self._deleted or self._set:
+            with_concrete = isinstance(k, str) and not _is_symbolic(k)
+            if with_concrete and k in self._set:
+                return True
+            if with_concrete and k in self._deleted:
+                return False
         p = self._d["props"].get(k) if isinstance(k, str) and not _is_symbolic(k) else None
         if p is not None:
             return True if p["bit"] is None else self._env.bit(p["bit"])
@@ -307,6 +349,8 @@ class LazyObj(dict):
     def __getitem__(self, k):
         if not self._has(k):
             raise KeyError(k)
+        if self._set and isinstance(k, str) and not _is_symbolic(k) and k in self._set:
+            return self._set[k]
         p = self._d["props"].get(k)
         if p is None:
             return self._env.extra_value
@@ -318,7 +362,7 @@ class LazyObj(dict):
         return self[k] if self._has(k) else default
 
     def _present(self):
-        ks = [k for k in self._d["props"] if self._has(k)]
+        ks = [k for k in self._d["props"] if self._has(k)] + [k for k in self._set if k not in self._d["props"]]
         x = self._d.get("extra")
         if x is not None and self._env.bit(x["bit"]):
             ks.append(self._env.extra_name)
@@ -359,11 +403,11 @@ class LazyObj(dict):
     def __repr__(self):
         return "LazyObj(%s)" % (self._d.get("spec") or "literal")
 
-    # mutation is not something a structure hook may do to its input
+    # whole-object destruction is not modelled (pop / del / item assignment / setdefault / update are, above)
     def _ro(self, *a, **k):
-        raise Inconclusive("hook mutates its input")
+        raise Inconclusive("hook empties its input")
 
-    __setitem__ = __delitem__ = pop = popitem = clear = update = setdefault = _ro
+    popitem = clear = _ro
 
 
 def _is_symbolic(x):
